@@ -7,12 +7,22 @@ from checks import simcommon as sc
 MODULE = "Nice.Props.C03"
 THEOREMS = [f"Nice.Props.C03.{t}" for t in (
     "C03_state_change_needs_auth", "C03_forged_is_stutter", "C03_data_gate", "C03_control_only_if_stun",
-    "C03_lookalike_delivered")]
+    "C03_lookalike_delivered")] + [
+    "Nice.Props.C03Flow.C03_inbound_effects_need_auth", "Nice.Props.C03Flow.C03_discovery_agents_only_validate_responses",
+    "Nice.Props.C03Flow.C03_inbound_consumes_control_traffic", "Nice.Props.C03Flow.summary_ok", "Nice.Flow.reach_sound",
+    "Nice.Props.C04.C04_unmatched_is_response"]
 TRUSTED = [
     "Lean 4 kernel; axioms propext, Classical.choice, Quot.sound only (audited every run)",
     "Nice/Model/Gate.lean: hand-written status->effect table of conn_check_handle_inbound_stun and the demultiplexer of "
     "agent_recv_message_unlocked (status numbers regenerated from stunagent.h); that SUCCESS/FORBIDDEN imply a correct "
     "MESSAGE-INTEGRITY is property C04's theorem about the STUN validation model",
+    "Nice/Gen/InboundStun.lean: effect-dominance skeleton of conn_check_handle_inbound_stun REGENERATED from the source on every "
+    "run by tools/extract_flow.py (tracked: the validation status, which STUN agent produced it, the message class; every other "
+    "condition is nondeterministic, every call not on the translator's printed list of pure helpers is an event); the theorems "
+    "C03_inbound_* hold for every execution of that skeleton (Nice/Model/Flow.lean: big-step semantics + reachability analysis with "
+    "a kernel-checked soundness proof, evaluated by `decide +kernel`).  Trusted: the translator, the purity list, the semantics "
+    "`Exec`, and that stun_agent_validate returns UNMATCHED_RESPONSE only for responses (theorem C04_unmatched_is_response "
+    "about the validation model)",
     "tie = paired simulations of two real agents: the same seeded session is run with and without an off-path attacker "
     "(random bytes, STUN of every class/method with correct USERNAME and missing / truncated / empty / over-long / wrong-key "
     "MESSAGE-INTEGRITY, forged responses and 487/403 errors with guessed transaction ids, role-flipping ICE-CONTROLLING, "
@@ -44,7 +54,8 @@ def attack_packets(rng, ufrag_target, ufrag_peer, n, kinds=None):
     for _ in range(n):
         kind = rng.choice(kinds) if kinds else rng.choice(["random", "random-stunlike", "req-nomi", "req-trunc", "req-empty", "req-long", "req-wrongkey",
                            "req-wrongkey-fp", "resp-forged", "err487", "err403", "indication", "rtp", "othermethod",
-                           "req-wrongkey-badfp", "indication-bare", "indication-wrongkey", "nocookie-req", "nocookie-req", "nocookie-ind"])
+                           "req-wrongkey-badfp", "indication-bare", "indication-wrongkey", "nocookie-req", "nocookie-req", "nocookie-ind",
+                           "rejected-then-resp", "rejected-then-resp"])
         txid = bytes(rng.randrange(256) for _ in range(12))
         attrs = [(stunpy.A_USERNAME, uname), (stunpy.A_PRIORITY, struct.pack("!I", rng.randrange(1, 2 ** 31))),
                  (stunpy.A_CONTROLLING, struct.pack("!Q", 2 ** 64 - 1)), (stunpy.A_USE_CAND, b"")]
@@ -70,6 +81,14 @@ def attack_packets(rng, ufrag_target, ufrag_peer, n, kinds=None):
             p = stunpy.build(0, 1, txid, attrs, key=wrongkey, fingerprint=True)
         elif kind == "req-wrongkey-badfp":
             p = stunpy.build(0, 1, txid, attrs, key=wrongkey, fingerprint=True, bad_fp=True)
+        elif kind == "rejected-then-resp":
+            # a request the agent rejects (401/400), followed from the same source by a response / error response that
+            # reuses its transaction id: the id of a REJECTED request is not an outstanding transaction of the agent
+            bad = stunpy.build(0, 1, txid, attrs, key=rng.choice([wrongkey, None]), fingerprint=True)
+            cls2 = rng.choice([2, 2, 3])
+            body = [(stunpy.A_XOR_MAPPED, b"\x00\x01" + struct.pack("!H", 0x1234 ^ 0x2112) + bytes(4))] if cls2 == 2 else \
+                   [(stunpy.A_ERROR, stunpy.error_attr(rng.choice([403, 487, 401])))]
+            p = (bad, stunpy.build(cls2, 1, txid, body, key=rng.choice([None, None, wrongkey]), fingerprint=True))
         elif kind == "resp-forged":
             p = stunpy.build(2, 1, txid, [(stunpy.A_XOR_MAPPED, b"\x00\x01" + struct.pack("!H", 0x1234 ^ 0x2112) + bytes(4))],
                              key=wrongkey, fingerprint=True)
@@ -106,7 +125,7 @@ def session(exe, seed, attack):
     rng = random.Random(f"C03/{seed}")
     cfg = sc.base_config(rng)
     lat = rng.choice([1, 5, 20])
-    cfg.update(loss=0, dup=0, lat=lat, anyorder=False)
+    cfg.update(loss=0, dup=0, lat=lat, anyorder=False, tickcost0=True)
     # a third of the sessions: consent freshness on, the peer vanishes after READY while the attacker keeps talking
     vanish = rng.random() < 0.35
     if vanish:
@@ -115,6 +134,7 @@ def session(exe, seed, attack):
     # use the stream credentials) are pending while the attacker injects
     if rng.random() < 0.5:
         cfg.update(stunsrv=rng.choice(["d", "ddd", "l", "dl", "s"]))
+    flood = rng.random() < 0.06
     s = sc.start_session(exe, seed, cfg)
     s.op(f"net latency {lat} {lat}")          # constant latency: the network draws no random numbers
     s.op("net tickcost 0")                    # dispatching costs no virtual time: injected packets cannot shift timing
@@ -143,11 +163,27 @@ def session(exe, seed, attack):
                 src = f"127.0.9.{arng.randrange(1, 250)}:{arng.randrange(1024, 65000)}"
             else:
                 src = arng.choice(addrs[other])       # spoofed peer address
-            s.op(f"inject {src} {dst} {stunpy_hex(p)}")
-            s.inj_sources.setdefault(stunpy_hex(p), set()).add("foreign" if src.startswith("127.0.9.") else "spoofed")
-            n_inj += 1
+            for q in (p if isinstance(p, tuple) else (p,)):
+                s.op(f"inject {src} {dst} {stunpy_hex(q)}")
+                s.inj_sources.setdefault(stunpy_hex(q), set()).add("foreign" if src.startswith("127.0.9.") else "spoofed")
+                n_inj += 1
 
     steps = sc.signalling_steps(rng, cfg)
+    if flood:
+        # more rejected requests at one socket than a STUN agent has transaction slots, before any legitimate check
+        tgt = arng.choice("AB")
+        dst = arng.choice(addrs[tgt])
+        uname = ((ua if tgt == "A" else ub) + ":" + (ub if tgt == "A" else ua)).encode()
+        for k in range(arng.choice([210, 260])):
+            q = stunpy.build(0, 1, bytes(arng.randrange(256) for _ in range(12)),
+                             [(stunpy.A_USERNAME, uname), (stunpy.A_PRIORITY, struct.pack("!I", 1 + k))],
+                             key=bytes(arng.randrange(33, 126) for _ in range(22)), fingerprint=True)
+            if attack:
+                s.op(f"inject 127.0.9.{1 + k % 200}:{2000 + k} {dst} {stunpy_hex(q)}")
+                n_inj += 1
+            if k % 40 == 39:
+                s.op("run 30")
+        s.op("run 100")
     inject(6)
     for st in steps:
         s.op(st)
@@ -167,7 +203,8 @@ def session(exe, seed, attack):
         t0 = int(re.search(r"t=(\d+)", s.op("stats")[1]).group(1))
         s.op(f"net blackout * * {t0} {t0 + 45000}")
         for _ in range(45):
-            inject(2, ["indication", "indication-bare", "indication-wrongkey", "resp-forged", "req-wrongkey-fp", "req-nomi", "rtp"])
+            inject(2, ["indication", "indication-bare", "indication-wrongkey", "resp-forged", "req-wrongkey-fp", "req-nomi", "rtp",
+                       "rejected-then-resp", "rejected-then-resp"])
             s.op("run 1000")
         s.op("run 3000")
     # legitimate data still flows
